@@ -126,29 +126,6 @@ def chk (st : HSt) (e : ILEffect) (bare : List String) (after : Bool := false) :
     -- the effect itself is never an `Empty` instance here (a Sequence that renders as EMPTY() is kept)
     ((if after then .seqn ([e] ++ deps) else .seqn (deps ++ [e])), { st with pending := rest })
 
-def addImmsH (st : HSt) (xs : List (String × Bool)) : HSt :=
-  { st with imms := xs.foldl (fun acc x => if acc.any (fun y => y.1 == x.1) then acc else acc ++ [x]) st.imms }
-
-mutual
-def immsOfExprH : CExpr → List (String × Bool)
-  | .imm l s => [(l, s)]
-  | .cast _ e => immsOfExprH e
-  | .un _ e => immsOfExprH e
-  | .not e => immsOfExprH e
-  | .bin _ a b => immsOfExprH a ++ immsOfExprH b
-  | .shift _ a b => immsOfExprH a ++ immsOfExprH b
-  | .cmp _ a b => immsOfExprH a ++ immsOfExprH b
-  | .log _ a b => immsOfExprH a ++ immsOfExprH b
-  | .tern c a b => immsOfExprH c ++ immsOfExprH a ++ immsOfExprH b
-  | .macro _ args _ _ => immsOfExprsH args
-  | .call _ args _ _ => immsOfExprsH args
-  | .stmtexpr _ _ e => immsOfExprH e
-  | _ => []
-def immsOfExprsH : List CExpr → List (String × Bool)
-  | [] => []
-  | a :: as => immsOfExprH a ++ immsOfExprsH as
-end
-
 def gccTmpOf (st : HSt) (c : CE) : Option String :=
   match c.il with
   | .varl n => if st.pending.any (fun p => p.tmp == n && p.gcc) then some n else none
@@ -227,7 +204,8 @@ def compileExprH (env : CEnv) (st : HSt) : CExpr → Except String (CE × HSt)
           let dead := if live then cb else ca
           let st := match dead.il with
             | .varl n => if isHTmp n then { st with pending := st.pending.filter (fun p => p.tmp != n) }
-                         else { st with live := st.live.filter (· != n) }     -- rm_op_by_name on an Immediate
+                         else if env.cfg.literalTypeBySuffixOnly then { st with live := st.live.filter (· != n) }   -- rm_op_by_name on an Immediate
+                         else st
             | _ => st
           let (fa, fb) := if env.cfg.literalTypeBySuffixOnly then (ca, cb)
                           else castOperands env.cfg (promotionCast env.cfg ca) (promotionCast env.cfg cb)
